@@ -30,7 +30,7 @@ def anchors():
 def cases(seed, tier):
     q = tier == "quick"
     kinds = ["random", "jitter", "square", "hex"]
-    return [{"kind": kinds[i % 4], "seed": [seed, 19, i]} for i in range(72 if q else 900)]
+    return [{"kind": kinds[i % 4], "seed": [seed, 19, i]} for i in range(108 if q else 900)]
 
 
 def centres(rng, kind):
